@@ -136,6 +136,9 @@ func CheckTokenTotalSupply(g *GenesisConfig) error {
 		}
 		seen[block.Address] = true
 		for zts, amount := range block.BalanceList {
+			if amount == nil || amount.Sign() < 0 {
+				return errors.Errorf("invalid balance for %v Amount of %v is missing or negative", block.Address, zts)
+			}
 			total, ok := given[zts]
 			if !ok {
 				given[zts] = new(big.Int).Set(amount)
